@@ -233,3 +233,32 @@ def x13(cx: Cx, ob: Ob) -> None:
     from ..rules import no_fields_set_dependence
 
     no_fields_set_dependence(cx, ob)
+
+
+@obligation("C10-D6", "a derivation returns a NEW converter: no return value of a function in scope can be one of its converter inputs (or an element of a sequence of inputs, e.g. reduce(f, converters) without an initial value for a single converter)", floor=6)
+def d6(cx: Cx, ob: Ob) -> None:
+    for fn, ps in scope(cx, ob):
+        r = fn.node.returns
+        import ast as _ast
+
+        if r is None or "Converter" not in _ast.unparse(r):
+            continue
+        o = Own(cx, fn, ps)
+        ob.site(f"{fn.where} {fn.qualname}", "returns a converter")
+        for t, ctx in o.s.returns():
+            tg = o.tag(t)
+            if tg is not None and tg[0] == "CB":
+                ob.violate(
+                    fn.qualname,
+                    where(fn, ctx.path.out[2]),
+                    f"{fn.name} can return its input `{tg[1]}` itself (`{show(t)[:50]}`): whatever is done to the 'derived' converter afterwards is done to the input",
+                    witness="chain([c]) is c; chain([c]).add_prefix(...) changes c",
+                    detail="returns-input",
+                )
+
+
+@obligation("C10-X8", "the Record model copies what it is given: no string transformation and no plain-mode validator on the synonym lists (pydantic's list validation is what makes Record(prefix_synonyms=other.prefix_synonyms) a copy)", floor=1)
+def x8(cx: Cx, ob: Ob) -> None:
+    from ..rules import record_verbatim
+
+    record_verbatim(cx, ob)
